@@ -88,6 +88,24 @@ def run(ctx):
         sg = sites_on(cw, SIGNAL, '.DbInner.cleanup_worker_wait')
         wt = sites_on(cw, WAIT, '.DbInner.commit_worker_wait')
         lib.precedes(ctx, '1i idle-commit-worker-wakes-cleanup', cw, sg, wt, 'before the commit worker goes to sleep it signals the cleanup worker (enacted logs are waiting to be cleaned)')
+        # ... and it does so after EVERY finished log file, not only when it is about to sleep: enact_logs throttles itself on the
+        # number of enacted-but-uncleaned logs (cleanup_queue_wait), only the cleanup worker lowers that number and only this
+        # signal wakes the cleanup worker. If the signal also depends on the hand-over queue being empty, a commit worker that
+        # stays behind the flush worker for MAX_LOG_FILES + 1 files never wakes the cleaner and then waits for it for ever.
+        for s_ in sg:
+            extra = []
+            for (sw, yes, no) in cw.control_deps(s_):
+                t = cw.term(sw)
+                pl = op_place(t['a']) if t['k'] == 'switch' else None
+                if pl is None:
+                    continue
+                sl = backward_slice(cw, [pl])
+                reads_queue = [c for c in sl.calls if c in F.bodies and '.Log.read_queue' in set().union(*[lib.receiver_fields(F.body(c), t2, 0) for _, t2 in F.body(c).all_calls() if t2['a']] or [set()])]
+                if reads_queue or '.Log.read_queue' in sl.fields:
+                    extra.append('%s at %s' % ((reads_queue or ['Log.read_queue'])[0], cw.loc(sw)))
+            ctx.ob('1i2 cleanup-woken-after-every-finished-file', 'K3-guard', cw.path,
+                   'whether the cleanup worker is signalled does not depend on the hand-over queue (it is signalled after every finished log file, also while more files are waiting to be enacted)',
+                   not extra, 'the signal is also guarded by %s' % extra, cw.loc(s_))
     if cw:
         # enact_logs reports "no more work" at the end of every log FILE, while the wake-up flag is a single boolean:
         # several rotations can coalesce into one signal, so the worker must look at the hand-over queue before it sleeps
